@@ -438,7 +438,7 @@ def judge_propagate(nodes, ev, outcome):
 # ------------------------------------------------------------------ Coq side
 COQ_HEADER = """From Coq Require Import ZArith NArith List Bool.
 From PL.C09 Require Import BoolGraph.
-From PL.C06 Require Import ModelPropagate.
+From PL.C06 Require Import ModelPropagate ProofsTermination.
 Import ListNotations.
 Open Scope Z_scope.
 Fixpoint nat_list_eqb (x y : list nat) : bool :=
@@ -447,13 +447,28 @@ Fixpoint nat_list_eqb (x y : list nat) : bool :=
   | a :: x', b :: y' => Nat.eqb a b && nat_list_eqb x' y'
   | _, _ => false
   end.
-Definition chk (g : graph) (ev sched : list Z) (incons : bool) (expected : list nat) : bool :=
-  match propagate_m g ev nil sched (S (S (length sched))) with
+Definition chkf (fuel : nat) (g : graph) (ev sched : list Z) (incons : bool) (expected : list nat) : bool :=
+  match propagate_m g ev nil sched fuel with
   | Done c => negb incons && nat_list_eqb (cur_table c (length g)) expected
   | Inconsistent => incons
   | _ => false
   end.
+Definition chk (g : graph) (ev sched : list Z) (incons : bool) (expected : list nat) : bool :=
+  chkf (S (S (length sched))) g ev sched incons expected.
+(* small formulas: also with the proved fuel bound (C06_propagate_terminates), and the real run must have
+   made fewer pops than the bound *)
+Definition chkb (g : graph) (ev sched : list Z) (incons : bool) (expected : list nat) : bool :=
+  chk g ev sched incons expected && Nat.ltb (length sched) (fuel_bound g ev) &&
+  chkf (fuel_bound g ev) g ev sched incons expected.
 """
+
+
+def fuel_bound(nodes, ev):
+    """ProofsTermination.fuel_bound (C06_fuel_bound_explicit): (|g|+1) * (|ev| + 2*#children + 2*|g| + 1)."""
+    n = len(nodes)
+    nch = sum(len(x) for kind, x in nodes if kind != "atom")
+    return (n + 1) * (len(ev) + 2 * nch + 2 * n + 1)
+
 
 
 def coq_graph(nodes):
@@ -473,7 +488,7 @@ def coq_case(nodes, ev, outcome, pops):
     else:
         table = [(0 if k not in outcome else (1 if outcome[k] else 2)) for k in range(1, n + 1)]
         inc = False
-    return "chk %s [%s] [%s] %s [%s]" % (coq_graph(nodes), "; ".join("(%d)" % e for e in ev),
+    return "%s %s [%s] [%s] %s [%s]" % ("chkb" if len(nodes) <= 40 else "chk", coq_graph(nodes), "; ".join("(%d)" % e for e in ev),
                                          "; ".join("(%d)" % p for p in pops), "true" if inc else "false",
                                          "; ".join("%d%%nat" % t for t in table))
 
@@ -648,9 +663,19 @@ def run(ctx):
                                             ("derives-more" if nontrivial else "evidence-only")))
         if len(nodes) <= 400:
             tie_cases.append(coq_case(nodes, ev, outcome, pops))
-            tie_meta.append(("program", p.text(), ev, outcome, pops))
+            tie_meta.append(("program", p.text(), ev, outcome, pops, nodes))
     ctx.log("model tie: %d propagate runs through ModelPropagate.propagate_m (vm_compute)" % len(tie_cases))
     ctx.cov["propagate_tie_cases"] = len(tie_cases)
+    # the real loop never makes more iterations than the proved bound (C06_propagate_terminates)
+    worst = 0.0
+    for m in tie_meta:
+        nodes_m = m[1] if m[0] == "graph" else m[5]
+        b = fuel_bound(nodes_m, m[2])
+        worst = max(worst, len(m[4]) / float(b))
+        if len(m[4]) >= b:
+            ctx.broken.append("correspondence:LogicFormula.propagate made %d iterations, more than the proved bound %d, on %r evidence %r"
+                              % (len(m[4]), b, nodes_m, m[2]))
+    ctx.cov["propagate_max_iterations_over_bound"] = round(worst, 4)
     try:
         failing = ctx.coq_failing(COQ_HEADER, tie_cases, name="c06tie", shard=300, jobs=JOBS)
     except RuntimeError as e:
